@@ -182,4 +182,37 @@ func (rn *runner) Exec(op string) string {
 	return res + rn.suffix()
 }
 
-func TestDriver(t *testing.T) { vh.Main(t, "rcv", newRunner) }
+// enumAll: every arrival sequence of length <= 5 over a 6-number universe, with every
+// ack-eliciting mask, each followed by duplicate queries for the whole universe and an ACK.
+func enumAll(emit func(ops []string)) {
+	const U, L = 6, 5
+	var seq [L]int
+	var rec func(n, length int)
+	rec = func(n, length int) {
+		if n == length {
+			for mask := 0; mask < 1<<length; mask++ {
+				ops := make([]string, 0, length+U+2)
+				now := int64(1000)
+				for i := 0; i < length; i++ {
+					now += 1_000_000
+					ops = append(ops, fmt.Sprintf("recv A %d 1 %d %d", seq[i], (mask>>i)&1, now))
+				}
+				for p := 0; p < U; p++ {
+					ops = append(ops, fmt.Sprintf("dup A %d", p))
+				}
+				ops = append(ops, fmt.Sprintf("ack A %d 1", now+1), fmt.Sprintf("ack A %d 0", now+30_000_000))
+				emit(ops)
+			}
+			return
+		}
+		for v := 0; v < U; v++ {
+			seq[n] = v
+			rec(n+1, length)
+		}
+	}
+	for length := 1; length <= L; length++ {
+		rec(0, length)
+	}
+}
+
+func TestDriver(t *testing.T) { vh.MainEnum(t, "rcv", newRunner, enumAll) }
